@@ -5,6 +5,7 @@ import (
 	"bytes"
 	"errors"
 	"net"
+	"strconv"
 	"strings"
 	"sync"
 	"time"
@@ -214,6 +215,12 @@ func (cj *CookieJar) parseCookiesFromResp(host, path []byte, resp *fasthttp.Resp
 		}
 		existing := searchCookieByKeyAndPath(key, cookiePath, cookies)
 		live := c.Expire().Equal(fasthttp.CookieExpireUnlimited) || c.Expire().After(now)
+		// Max-Age takes precedence over Expires (RFC 6265 5.3); zero or less means "expired now"
+		if seconds, ok := maxAgeAttribute(value); ok {
+			if live = seconds > 0; live {
+				c.SetExpire(now.Add(time.Duration(seconds) * time.Second))
+			}
+		}
 
 		switch {
 		case existing != nil && live:
@@ -237,6 +244,23 @@ func (cj *CookieJar) parseCookiesFromResp(host, path []byte, resp *fasthttp.Resp
 		}
 	})
 	cj.hostCookies[hostStr] = cookies
+}
+
+// maxAgeAttribute returns the value of the Max-Age attribute of a Set-Cookie header value.
+// fasthttp.Cookie cannot tell "Max-Age=0" (delete the cookie) from a cookie without the attribute.
+func maxAgeAttribute(setCookie []byte) (int64, bool) {
+	attrs := bytes.Split(setCookie, []byte{';'})
+	for _, attr := range attrs[1:] {
+		attr = bytes.TrimSpace(attr)
+		const name = "max-age="
+		if len(attr) <= len(name) || !bytes.EqualFold(attr[:len(name)], []byte(name)) {
+			continue
+		}
+		if seconds, err := strconv.ParseInt(string(attr[len(name):]), 10, 64); err == nil {
+			return seconds, true
+		}
+	}
+	return 0, false
 }
 
 // hostWithoutPort returns the host part of host[:port]. Cookies are looked up
